@@ -7,8 +7,8 @@ for f in sorted(glob.glob('/verif/seeded/*/meta.json')):
     m = json.load(open(f))
     readme = open(f.replace('meta.json', 'README.md')).read().strip().splitlines()
     title = next((l.lstrip('# ').strip() for l in readme if l.strip()), '')
-    title = re.sub(r'^C\d+ variant [a-d]:\s*', '', title)
-    title = re.sub(r'^Variant [a-d]\s*[-—:]*\s*', '', title)
+    title = re.sub(r'^C\d+ variant [a-f]:\s*', '', title)
+    title = re.sub(r'^Variant [a-f]\s*[-—:]*\s*', '', title)
     tot += 1
     own += bool(m['detected_by_own_property_check'])
     rows.append(f"| {m['property']}{m['variant']} | {m.get('wave', 1)} | {title[:95]} | {' '.join(m['checks_that_report_it'])} |")
